@@ -88,4 +88,40 @@ theorem for_visits_snapshot (cfg : Cfg) (fuel : Nat) (name : String) (x : Val) (
   simp only [forRun]
   rw [h]
 
+/-! ## Singletons -/
+
+/-- A singleton the host provides starts as the host's value … -/
+theorem singleton_starts_as_host_value (host : HostSingletons) (name : String) (t : Ty) (hv : HostVal)
+    (h : host.lookup name = some hv) : singletonInit host name t = hostToVal hv := by
+  simp [singletonInit, h]
+
+/-- … every other singleton as the zero value of its type. -/
+theorem singleton_starts_as_zero_value (host : HostSingletons) (name : String) (t : Ty)
+    (h : host.lookup name = none) : singletonInit host name t = zeroValue t := by
+  simp [singletonInit, h]
+
+/-- A host that provides nothing (the default configuration) gives every singleton its zero value. -/
+theorem no_host_singletons (name : String) (t : Ty) : singletonInit [] name t = zeroValue t := rfl
+
+/-- **Extraction.** A function `fn f(c: $S, a: T)` is called with the normal argument only; the
+activation binds `a` to the argument and `c` to the current value of the module's singleton `$S`
+(the value itself: an object or list is shared with `$S` and with every other extraction, a scalar
+is copied), whatever the caller's scopes are. -/
+theorem extraction_binds_singleton (cfg : Cfg) (fuel : Nat) (sp : Span) (m c a sname sname' : String) (tc ta : Ty)
+    (stmts : List Stmt) (e : Option Expr) (bsp : Span) (bty : Ty) (v g : Val) (s s₁ : St) (r : Val)
+    (hd : ¬ s.depth > cfg.callLimit) (hg : s.globals.lookup (m, sname) = some g)
+    (h : evalBlock cfg fuel (.mk ⟨0,0,0,0⟩ .null stmts e)
+          { s with scopes := [[(c, g), (a, v)]], module := m, depth := s.depth + 1 } = (.ok r, s₁)) :
+    callBody cfg (fuel + 1) sp m [⟨c, tc, true, sname⟩, ⟨a, ta, false, sname'⟩] (.mk bsp bty stmts e) [v] s
+      = (.ok r, { s₁ with scopes := s.scopes, module := s.module, depth := s.depth }) := by
+  simp [callBody, hd, hg, h]
+
+/-- The caller cannot pass the singleton: an argument list as long as the full parameter list is
+outside the language (the analyzer rejects it; here the call is not given a meaning). -/
+theorem extraction_takes_no_argument (cfg : Cfg) (fuel : Nat) (sp : Span) (m c a sname sname' : String) (tc ta : Ty)
+    (body : Block) (v w : Val) (s : St) (hd : ¬ s.depth > cfg.callLimit) :
+    callBody cfg (fuel + 1) sp m [⟨c, tc, true, sname⟩, ⟨a, ta, false, sname'⟩] body [w, v] s
+      = (.error (.unsupported "arity"), s) := by
+  simp [callBody, hd]
+
 end HmsProofs.C01
